@@ -216,6 +216,14 @@ Definition lib_msg_row (m : lmsg) (r : row) : row * vec :=
 Definition to_conn (seeding : bool) (r : row) : row * vec :=
   (set_dint (negb seeding) (set_pi_h false (set_ph PConn r)), d 1 (-1) +v d 0 1).
 
+(* HandshakeManager::receive_succeeded when ConnectionList::insert returns NULL (list full): release_connection,
+   fd_close, PeerList::disconnected; SocketManager::transfer_event drops the entry *)
+Definition refuse_row (r : row) : row * vec :=
+  (set_closes (closes r + 1) (set_pi_h false (set_pi_c false (set_pe false (set_fd false (set_ph PNone r))))),
+   d 1 (-1) +v d 18 (-1)).
+Definition finish_hs (seed full : bool) (r : row) : row * vec :=
+  if full then refuse_row r else to_conn seed r.
+
 (* ---- PeerConnectionBase::cleanup + ConnectionList::erase + PeerList::disconnected -------------------- *)
 Definition cleanup_row (r : row) : row * vec :=
   let dv :=
@@ -297,6 +305,20 @@ Definition rel_all (c : nat) (l : list blk) : list blk := map (rel_blk c) l.
 (* Block::erase of one valid non-leading transfer (RequestList::skipped) *)
 Definition rel_one (c : nat) (i : N) (l : list blk) : list blk := map_blk i (rel_blk c) l.
 
+(* a block id is piece * blk_mul + block number within the piece (fewer than blk_mul blocks per piece) *)
+Definition blk_mul : N := 64%N.
+Definition piece_of (b : N) : N := (b / blk_mul)%N.
+
+(* erased (dissimilar) transfers that Block::invalidate_transfer deletes (since 3d23180: set_peer_info(NULL) + delete,
+   so the owner's PeerInfo::transfer_counter drops) *)
+Definition te_owners (l : list (nat * tst)) : list nat := map fst (filter (fun p => tst_eqb (snd p) TE) l).
+Definition rel_dropped (c : nat) (b : blk) : list nat :=
+  if fin b then [] else
+  if has_st c TL b then
+    let keep := filter (fun p => negb (Nat.eqb (fst p) c) || tst_eqb (snd p) TE) (trs b) in
+    if snd (promote keep) then [] else te_owners keep
+  else [].
+
 (* Block::completed: only the leader stays *)
 Definition complete_blk (c : nat) (b : blk) : blk := mkBlk (bidx b) true [(c, TL)].
 
@@ -304,9 +326,10 @@ Definition leader_of (b : blk) : option nat :=
   match find (fun p => tst_eqb (snd p) TL) (trs b) with Some p => Some (fst p) | None => None end.
 
 (* ---- state ------------------------------------------------------------------------------------------------ *)
-Record st := mkSt { rows : list row; g : vec; blocks : list blk; active : bool; opened : bool; seeding : bool; rej : bool; pexact : bool }.
+Record st := mkSt { rows : list row; g : vec; blocks : list blk; active : bool; opened : bool; seeding : bool; rej : bool; pexact : bool;
+                    maxc : Z (* ConnectionList::max_size *) }.
 
-Definition init (seed : bool) : st := mkSt [] vz [] true true seed false false.
+Definition init (seed : bool) : st := mkSt [] vz [] true true seed false false 100.
 
 Fixpoint upd (c : nat) (f : row -> row * vec) (l : list row) : list row * vec * bool :=
   match l with
@@ -325,11 +348,11 @@ Definition get_row (c : nat) (l : list row) : option row := find (fun r => Nat.e
 
 Definition with_row (c : nat) (f : row -> row * vec) (s : st) : st :=
   match upd c f (rows s) with
-  | (rs, dv, ok) => mkSt rs (g s +v dv) (blocks s) (active s) (opened s) (seeding s) (rej s || negb ok) (pexact s)
+  | (rs, dv, ok) => mkSt rs (g s +v dv) (blocks s) (active s) (opened s) (seeding s) (rej s || negb ok) (pexact s) (maxc s)
   end.
 Definition set_blocks (bl : list blk) (s : st) : st :=
-  mkSt (rows s) (g s) bl (active s) (opened s) (seeding s) (rej s) (pexact s).
-Definition reject (s : st) : st := mkSt (rows s) (g s) (blocks s) (active s) (opened s) (seeding s) true (pexact s).
+  mkSt (rows s) (g s) bl (active s) (opened s) (seeding s) (rej s) (pexact s) (maxc s).
+Definition reject (s : st) : st := mkSt (rows s) (g s) (blocks s) (active s) (opened s) (seeding s) true (pexact s) (maxc s).
 
 Inductive op :=
 | Connect (c : nat) (incoming ext : bool)
@@ -337,27 +360,28 @@ Inductive op :=
 | PeerMsg (c : nat) (m : pmsg) (n len : N)     (* the peer has sent n of the len bytes of message m *)
 | LibMsg (c : nat) (m : lmsg)                  (* the library wrote message m to peer c *)
 | PexEnable (c : nat)                          (* DownloadMain::do_peer_exchange visits c while toggling PEX on *)
-| HashDone (b : N)                             (* piece/block b verified: its BlockList leaves the TransferList *)
+| HashDone (p : N)                             (* piece p verified: its BlockList leaves the TransferList *)
+| SetMax (n : Z)                               (* ConnectionList::set_max_size *)
 | Abort (c : nat)                              (* remote close / reset / timeout / error on c *)
 | Stop | Close | Remove | Start
 | PexTick.                                     (* DownloadMain::do_peer_exchange switched PEX on (flag_pex_active) *)
 
 (* the handshake reads the first message after the 68 bytes; which messages end the handshake phase *)
-Definition hs_msg (seed : bool) (m : pmsg) (n len : N) (r : row) : row * vec :=
+Definition hs_msg (seed full : bool) (m : pmsg) (n len : N) (r : row) : row * vec :=
   let complete := N.eqb n len in
   match m with
   | MBitfield =>
       if complete then
         let r1 := set_bfseen true r in
-        if ext r && negb (xinit r) then (r1, vz) else to_conn seed r1
+        if ext r && negb (xinit r) then (r1, vz) else finish_hs seed full r1
       else (r, vz)
   | MExtHs =>
       if complete then
         let r1 := set_xpex true (set_xinit true r) in
-        if bfseen r then to_conn seed r1 else (r1, vz)
+        if bfseen r then finish_hs seed full r1 else (r1, vz)
       else (r, vz)
-  | MKeep => if N.leb 4 n then to_conn seed r else (r, vz)
-  | _ => if N.leb 5 n then to_conn seed r else (r, vz)
+  | MKeep => if N.leb 4 n then finish_hs seed full r else (r, vz)
+  | _ => if N.leb 5 n then finish_hs seed full r else (r, vz)
   end.
 
 Definition ph_valid_row (b : N) (valid : bool) (r : row) : row * vec :=
@@ -402,10 +426,13 @@ Definition piece_header (c : nat) (b : N) (s : st) : st :=
 (* PeerConnectionBase::down_chunk_finished after the transfer was handed back *)
 Definition after_piece (b : option N) (r : row) : row * vec :=
   let r0 := set_cur CNone r in
-  let keep_chunk := match b, filter (fun x => N.ltb x choked_tag) (reqs r0) with Some i, nxt :: _ => N.eqb i nxt | _, _ => false end in
+  let keep_chunk := match b, filter (fun x => N.ltb x choked_tag) (reqs r0) with Some i, nxt :: _ => N.eqb (piece_of i) (piece_of nxt) | _, _ => false end in
   let (r1, d1) := if keep_chunk then (r0, vz) else rel_dc r0 in
   let (r2, d2) := if negb (du r1) && queued_empty (reqs r1) then erase_td r1 else (r1, vz) in
   (r2, d1 +v d2).
+
+Definition dec_tc_all (owners : list nat) (s : st) : st :=
+  fold_left (fun s c => with_row c (tc_add (-1)) s) owners s.
 
 Definition piece_end (c : nat) (s : st) : st :=
   match get_row c (rows s) with
@@ -416,10 +443,11 @@ Definition piece_end (c : nat) (s : st) : st :=
       | CSkip => with_row c (seq2 (tc_add (-1)) (after_piece None)) s
       | CValid b =>
           match find_blk b (blocks s) with
-          | None => reject s
+          | None => with_row c (seq2 (tc_add (-1)) (after_piece (Some b))) s   (* invalidated meanwhile: skipped() *)
           | Some bk =>
-              if has_st c TL bk then
-                with_row c (after_piece (Some b)) (set_blocks (map_blk b (complete_blk c) (blocks s)) s)
+              if has_st c TL bk && negb (fin bk) then
+                dec_tc_all (te_owners (trs bk))
+                  (with_row c (after_piece (Some b)) (set_blocks (map_blk b (complete_blk c) (blocks s)) s))
               else
                 with_row c (seq2 (tc_add (-1)) (after_piece (Some b))) (set_blocks (rel_one c b (blocks s)) s)
           end
@@ -431,8 +459,13 @@ Definition dissimilar (c : nat) (s : st) : st :=
   | Some r =>
       match cur r with
       | CValid b =>
-          with_row c dissim_row
-                   (set_blocks (map_blk b (set_st c TN TE) (blocks s)) s)
+          match find_blk b (blocks s) with
+          | Some bk =>
+              if has_st c TN bk then
+                with_row c dissim_row (set_blocks (map_blk b (set_st c TN TE) (blocks s)) s)
+              else s
+          | None => s
+          end
       | _ => s
       end
   | None => reject s
@@ -442,8 +475,12 @@ Definition abort_conn (c : nat) (s : st) : st :=
   match get_row c (rows s) with
   | None => s
   | Some r =>
-      let s1 := match ph r with PConn => set_blocks (rel_all c (blocks s)) s | _ => s end in
-      with_row c abort_row s1
+      match ph r with
+      | PConn =>
+          dec_tc_all (flat_map (rel_dropped c) (blocks s))
+                     (with_row c abort_row (set_blocks (rel_all c (blocks s)) s))
+      | _ => with_row c abort_row s
+      end
   end.
 
 Definition stop_row (r : row) : row * vec :=
@@ -455,16 +492,25 @@ Definition stop_row (r : row) : row * vec :=
 
 Definition conn_ids (l : list row) : list nat := map cid (filter is_conn l).
 
+(* ConnectionList::erase_remaining: one connection after the other *)
+Fixpoint stop_blocks (ids : list nat) (bl : list blk) : list blk * list nat :=
+  match ids with
+  | [] => (bl, [])
+  | c :: t => let (bl', dr) := stop_blocks t (rel_all c bl) in (bl', flat_map (rel_dropped c) bl ++ dr)
+  end.
+
 Definition do_stop (s : st) : st :=
   if active s then
-    let bl := fold_left (fun b c => rel_all c b) (conn_ids (rows s)) (blocks s) in
+    let (bl, dr) := stop_blocks (conn_ids (rows s)) (blocks s) in
     let (rs, dv) := upd_all stop_row (rows s) in
-    mkSt rs (g s +v dv) bl false (opened s) (seeding s) (rej s) (pexact s)
+    dec_tc_all dr (mkSt rs (g s +v dv) bl false (opened s) (seeding s) (rej s) (pexact s) (maxc s))
   else s.
 
+(* DownloadMain::close: TransferList::clear deletes every Block; what is left in them gives its peer reference back *)
 Definition do_close (s : st) : st :=
   let s1 := do_stop s in
-  mkSt (rows s1) (g s1) [] false false (seeding s1) (rej s1) (pexact s1).
+  let s2 := dec_tc_all (flat_map (fun b => map fst (trs b)) (blocks s1)) s1 in
+  mkSt (rows s2) (g s2) [] false false (seeding s2) (rej s2) (pexact s2) (maxc s2).
 
 Definition pmsg_step (c : nat) (m : pmsg) (n len : N) (s : st) : st :=
   match get_row c (rows s) with
@@ -474,7 +520,7 @@ Definition pmsg_step (c : nat) (m : pmsg) (n len : N) (s : st) : st :=
       | PNone => s
       | PHs =>
           if N.eqb (hsb r) Params.c16_hs_size then
-            let s1 := with_row c (hs_msg (seeding s) m n len) s in
+            let s1 := with_row c (hs_msg (seeding s) (Z.leb (maxc s) (nth 0 (g s) 0)) m n len) s in
             (* messages handed over with the handshake are dispatched at once (commit 5c4764e) *)
             match get_row c (rows s1), m with
             | Some r1, (MInt | MNotInt | MUnchoke | MChoke) =>
@@ -504,7 +550,7 @@ Definition step (s : st) (o : op) : st :=
       match get_row c (rows s) with
       | Some _ => reject s
       | None => mkSt (rows s ++ [new_row c incoming e]) (g s +v d 1 1 +v d 18 1) (blocks s)
-                     (active s) (opened s) (seeding s) (rej s) (pexact s)
+                     (active s) (opened s) (seeding s) (rej s) (pexact s) (maxc s)
       end
   | HsBytes c n => with_row c (hs_bytes_row (pexact s) (nth 14 (g s) 0) n) s
   | PeerMsg c m n len => pmsg_step c m n len s
@@ -522,22 +568,19 @@ Definition step (s : st) (o : op) : st :=
   | PexEnable c =>
       match get_row c (rows s) with None => s | Some _ =>
       with_row c (pex_enable_row (nth 14 (g s) 0)) s end
-  | HashDone b =>
-      match find_blk b (blocks s) with
-      | None => s
-      | Some bk =>
-          let s1 := set_blocks (filter (fun x => negb (N.eqb (bidx x) b)) (blocks s)) s in
-          match leader_of bk with
-          | Some c => if fin bk then with_row c (tc_add (-1)) s1 else s1
-          | None => s1
-          end
-      end
+  | HashDone p =>
+      let mine := filter (fun x => N.eqb (piece_of (bidx x)) p) (blocks s) in
+      if forallb fin mine then
+        dec_tc_all (flat_map (fun b => map fst (trs b)) mine)
+                   (set_blocks (filter (fun x => negb (N.eqb (piece_of (bidx x)) p)) (blocks s)) s)
+      else reject s
   | Abort c => abort_conn c s
   | Stop => do_stop s
   | Close => do_close s
   | Remove => do_close s
-  | Start => if opened s then mkSt (rows s) (g s) (blocks s) true true (seeding s) (rej s) (pexact s) else s
-  | PexTick => mkSt (rows s) (g s) (blocks s) (active s) (opened s) (seeding s) (rej s) true
+  | Start => if opened s then mkSt (rows s) (g s) (blocks s) true true (seeding s) (rej s) (pexact s) (maxc s) else s
+  | SetMax n => mkSt (rows s) (g s) (blocks s) (active s) (opened s) (seeding s) (rej s) (pexact s) n
+  | PexTick => mkSt (rows s) (g s) (blocks s) (active s) (opened s) (seeding s) (rej s) true (maxc s)
   end.
 
 Definition run (seed : bool) (ops : list op) : st := fold_left step ops (init seed).
